@@ -1102,6 +1102,12 @@ def run(ctx):
         if outp:
             scenario_prior(ctx, 'grid-again', spec, path, outp, dict(forced, stage=2, doregroup=False), rerun=False)
 
+    # S2b: a second grid (other seed): island flux + priorized stage 2 with regrouping, fresh-process re-run
+    spec2 = image_spec('grid', 1500 + seed, 5 if q else 8)
+    comps2, path2 = scenario_blind(ctx, 'grid2-island', spec2, dict(forced, doislandflux=True), rerun=False)
+    if comps2:
+        scenario_prior(ctx, 'grid2', spec2, path2, comps2, dict(forced, stage=2, doregroup=True), rerun=False, child=True)
+
     # S3: internal BANE (no forced rms/bkg) on a small noisy field with a few sources
     spec_b = image_spec('grid', 2000 + seed, 4)
     img, n = build_image(spec_b)
@@ -1127,7 +1133,7 @@ def run(ctx):
         ctx.case(case)
 
     # S4: low-threshold noise field: many marginal / singular fits (error masking under stress)
-    for t in range(1 if q else 4):
+    for t in range(2 if q else 4):
         spec_n = image_spec('noise', 3000 + 10 * seed + t, 4 if q else 8)
         scenario_blind(ctx, f'noise{t}', spec_n, dict(rms=1.0, bkg=0.0, innerclip=3.0, outerclip=2.5), rerun=(t == 0))
 
